@@ -82,10 +82,13 @@ def cancel_rules(ck, C):
                                     if T.reachable_only_via(cn, cs.bb, T.edges_of_value(cn, sw, True)):
                                         ok = True
         ck.verdict(ok, C, "T4-guarded-by", cn, "fast-path-pop-only-if-head-has-this-counter", "the fast path pops the head only when its counter matches", "cancel pops the head of the heap without it carrying the cancelled counter", site=cn.where(cs.bb))
-    # after the fast path the general removal must still run or the function returns
-    if ret:
-        bad = T.t2_all_exits(cn, [0], [c.bb for c in ret] + [c.bb for c in pops])
-        ck.verdict(bad is None, C, "T2-all-exits", cn, "every-path-removes", "every path through cancel runs a removal", "a path through cancel removes nothing", site=cn.where())
+    # every path through cancel performs a removal on the heap
+    bad = T.t2_all_exits(cn, [0], [c.bb for c in removers]) if removers else [0]
+    ck.verdict(bad is None, C, "T2-all-exits", cn, "every-path-removes-from-heap", "every path through cancel removes from the heap", "a path through TimerWheel::cancel leaves the entry in the heap (lazy cancellation): next_deadline() keeps reporting a cancelled deadline, so dispatch() wakes up early for nothing and residue accumulates", site=cn.where(), path=path_descr(cn, bad) if bad else None)
+    # Timer::unregister forgets its registration (a later expiry event / re-arm cannot reuse a cancelled arming)
+    forget = [cs.bb for cs in T.calls(tu, name=("take", "replace")) if T.path_has(tu, cs.args[0], ".registration")] + [i for i, j, st in T.stores_to_field(tu, "registration") if st["rv"]["r"] == "use" and any(v[1] == "None" for v in T.agg_variant(tu, st["rv"]["o"]))]
+    bad = T.t2_all_exits(tu, [0], forget) if forget else [0]
+    ck.verdict(bad is None, C, "T2-all-exits", tu, "unregister=>registration-forgotten", "Timer::unregister leaves registration = None on every path", "Timer::unregister keeps its registration: an expiry already collected in this dispatch still fires the cancelled arming, and a reschedule re-inserts an entry for a disabled timer", site=tu.where())
 
 
 def run(ck):
@@ -133,7 +136,23 @@ def run(ck):
                     if some and T.reachable_only_via(ne, p.bb, some) and keep_means_expired:
                         ok = True
             ck.verdict(ok, "1", "T4-guarded-by", ne, "pop-only-if-now>=deadline", "a timer is popped only on the edge where %s holds" % ("now >= deadline" if shape in STRICT_OK else "now > deadline"), "TimerWheel::next_expired pops a timer on the edge where its deadline has NOT been reached (comparison %s): timers fire early" % (shape,), site=ne.where(p.bb))
-    # the popped entry is the peeked head: both on self.heap
+    # the clock handed to next_expired is sampled after the wait returned
+    pp = ck.opt_body("Poll::poll")
+    if pp is None:
+        ck.anchor_missing("1", "T6-provenance", "Poll::poll")
+    else:
+        nes = T.calls(pp, name="next_expired")
+        waits = [cs for cs in pp.calls() if cs.f and cs.f["path"].startswith("polling::Poller::wait") and not pp.is_cleanup(cs.bb)]
+        nows = [cs for cs in pp.calls() if cs.f and cs.f["path"] == "std::time::Instant::now"]
+        for n in nes:
+            ok = False
+            for r, p in pp.resolve(n.args[1]):
+                if r[0] == "call" and not p:
+                    c = pp.call_at(r[1])
+                    if c.f["path"] == "std::time::Instant::now" and waits and pp.dominates(waits[0].bb, c.bb):
+                        ok = True
+            only = all(r[0] == "call" and pp.call_at(r[1]).f["path"] == "std::time::Instant::now" and not p for r, p in pp.resolve(n.args[1]))
+            ck.verdict(ok and only, "1", "T6-provenance", pp, "expiry-clock=Instant::now()-after-wait", "timers are tested against Instant::now() sampled after the wait returned", "the clock used to expire timers is not Instant::now() taken after the wait (%s): a wait cut short by a wake-up would fire timers before their deadline" % pp.roots_str(n.args[1]), site=pp.where(n.bb))
     # ---- clause 2: deadline order --------------------------------------------------------------------------
     oc = ck.opt_body("<TimeoutData as Ord>::cmp")
     if oc is None:
